@@ -141,11 +141,8 @@ def run_property(pid, tier, seed, jobs=None, write_baseline=False, only_units=No
 
     # ---- guards -------------------------------------------------------------------------
     crashed = [(k, r["crashed"]) for k, r in results.items() if r["crashed"]]
-    if crashed:
-        for k, tb in crashed:
-            print(f"unit {k[1]} crashed:\n{tb}")
-        print(f"CHECKER-FAILURE property={pid}: {len(crashed)} unit(s) crashed")
-        return 3
+    for k, tb in crashed:
+        results[k]["unsupported"] = list(results[k]["unsupported"]) + [f"engine error: {tb.strip().splitlines()[-1][:300]}"]
     obls = []
     for k, r in sorted(results.items()):
         for o in r["obligations"]:
@@ -196,6 +193,24 @@ def run_property(pid, tier, seed, jobs=None, write_baseline=False, only_units=No
         rp, has_input = _write_replay(pid, o, seen_fn[key])
         violations.append((o, rp, has_input))
     missing = sorted(n for n in base if n not in verdict) if not only_units else []
+    # functions the symbolic executor could not follow (outside the supported subset): the deductive
+    # verdict is 'undecided'; a concrete refutation replayed on the real code still counts (bounded)
+    if unsupported:
+        from . import registry as _reg
+        tried = set()
+        for (m, n), r in sorted(results.items()):
+            if not r["unsupported"]:
+                continue
+            for fnq in r["functions"]:
+                if fnq in tried:
+                    continue
+                tried.add(fnq)
+                o = dict(name=f"{fnq}/outside-subset", path="", status="unknown", backend="symex",
+                         detail="; ".join(r["unsupported"])[:600], witness=None, unit=n, seconds=0.0)
+                conc = _concretise(pid, o, results, seed)
+                if conc and conc.get("found"):
+                    rp, has_input = _write_replay(pid, o, conc)
+                    violations.append((o, rp, has_input))
 
     # ---- evidence -------------------------------------------------------------------------
     wall = time.time() - t0
@@ -271,6 +286,11 @@ def run_property(pid, tier, seed, jobs=None, write_baseline=False, only_units=No
             print(f"  failed obligation: {o['name']} [{o['path'][:120]}] {o['status']} ({o['backend']}): {o['detail'][:200]}")
             print(f"VIOLATION property={pid} replay={rp}" + ("" if has_input else " no-failing-input-found"))
         return 1
+    if crashed:
+        for k, tb in crashed:
+            print(f"unit {k[1]} crashed:\n{tb}")
+        print(f"CHECKER-FAILURE property={pid}: {len(crashed)} unit(s) crashed and no concrete refutation was found")
+        return 3
     if unsupported or undecided or missing:
         for u, m in unsupported[:20]:
             print(f"  outside-subset/unsupported in {u}: {m}")
@@ -286,6 +306,11 @@ def run_property(pid, tier, seed, jobs=None, write_baseline=False, only_units=No
 def _concretise(pid, o, results, seed):
     """look for a real input on which the real function violates its executable contract"""
     fn = o["name"].split("/")[0]
+    w = o.get("witness") or {}
+    if isinstance(w, dict) and w.get("concrete"):
+        return w["concrete"]            # a bounded monitor already holds the failing input
+    if "[" in fn:
+        fn = fn.split("[")[0]
     hint = dict(function=fn, obligation=o["name"], path=o["path"], witness=o.get("witness"), property=pid,
                 unit=o.get("unit"))
     ans = harness(["refute", "--seed", str(seed)], stdin=json.dumps(hint), timeout=900)
